@@ -346,6 +346,26 @@ TickUseful == \E u \in Threads : pc[u] = "ro_12_lk" /\ ~cvs[u] /\ ~cvx[u]
 Tick == /\ TickUseful
         /\ cvx' = [u \in Threads |-> cvx[u] \/ cvw[u]]
         /\ UNCHANGED <<pc, ow, lockh, cvw, cvs, ip, runs, fdone, early, stack, kind, k, o, blocking>>
+\* BEGIN GENERATED (tools/mkspec.py)
+KindMap == [x \in {"c0", "f0", "f1", "fn_l", "ro_10_l", "ro_10_ld", "ro_11_r", "ro_12_lk", "ro_13_l", "ro_13_ul", "ro_1_ld", "ro_2_l", "ro_2_ld", "ro_3_lk", "ro_4_cas", "ro_4_l", "ro_5_ld", "ro_6_l", "ro_6_ul", "ro_7_l", "ro_7_lk", "ro_8_r", "ro_9_st", "ro_d", "Done"} |-> CASE x = "c0" -> "c" [] x = "f0" -> "c" [] x = "f1" -> "c" [] x = "fn_l" -> "local" [] x = "ro_10_l" -> "local" [] x = "ro_10_ld" -> "ld" [] x = "ro_11_r" -> "region" [] x = "ro_12_lk" -> "lock" [] x = "ro_13_l" -> "local" [] x = "ro_13_ul" -> "unlock" [] x = "ro_1_ld" -> "ld" [] x = "ro_2_l" -> "local" [] x = "ro_2_ld" -> "ld" [] x = "ro_3_lk" -> "lock" [] x = "ro_4_cas" -> "cas" [] x = "ro_4_l" -> "local" [] x = "ro_5_ld" -> "ld" [] x = "ro_6_l" -> "local" [] x = "ro_6_ul" -> "unlock" [] x = "ro_7_l" -> "local" [] x = "ro_7_lk" -> "lock" [] x = "ro_8_r" -> "region" [] x = "ro_9_st" -> "st" [] x = "ro_d" -> "d" [] x = "Done" -> "none"]
+ResetAll == (* Global variables *)
+        /\ ow' = [q \in Onces |-> 0]
+        /\ lockh' = 0
+        /\ cvw' = [t \in Threads |-> FALSE]
+        /\ cvs' = [t \in Threads |-> FALSE]
+        /\ cvx' = [t \in Threads |-> FALSE]
+        /\ ip' = [t \in Threads |-> 1]
+        /\ runs' = [q \in Onces |-> 0]
+        /\ fdone' = [q \in Onces |-> FALSE]
+        /\ early' = FALSE
+        (* Procedure run_once *)
+        /\ kind' = [ self \in ProcSet |-> defaultInitValue]
+        /\ k' = [ self \in ProcSet |-> defaultInitValue]
+        /\ o' = [ self \in ProcSet |-> 0]
+        /\ blocking' = [ self \in ProcSet |-> FALSE]
+        /\ stack' = [self \in ProcSet |-> << >>]
+        /\ pc' = [self \in ProcSet |-> "c0"]
+\* END GENERATED
 LocalPending == {u \in Threads : pc[u] \in LocalLabels}
 NextU == IF LocalPending # {} THEN Step(CHOOSE u \in LocalPending : TRUE)
          ELSE (\E self \in Threads : Step(self)) \/ Tick
